@@ -20,9 +20,9 @@ import (
 type Profile map[string]float64
 
 var Profiles = map[string]Profile{
-	"mixed": {},
-	"view":  {"entity_add": 3, "pose": 3, "comp_add": 3, "comp_upd": 3, "comp_del": 2, "sub": 3, "action": 3, "asset_add": 3, "join": 2, "close": 1.5, "entity_del": 2},
-	"relay": {"entity_add": 3, "entity_del": 2, "pose": 3, "custom": 4, "action": 2, "asset_add": 2, "join": 2, "close": 1.5},
+	"mixed":     {},
+	"view":      {"entity_add": 3, "pose": 3, "comp_add": 3, "comp_upd": 3, "comp_del": 2, "sub": 3, "action": 3, "asset_add": 3, "join": 2, "close": 1.5, "entity_del": 2},
+	"relay":     {"entity_add": 3, "entity_del": 2, "pose": 3, "custom": 4, "action": 2, "asset_add": 2, "join": 2, "close": 1.5},
 	"isolation": {"join": 4, "close": 2, "entity_add": 2, "custom": 2, "pose": 2, "comp_add": 2, "open": 2},
 	"refusal": {"entity_del": 2, "comp_add": 2, "comp_del": 2, "get_name": 2, "get_id": 2, "sub": 2, "unsub": 1.5, "comp_list": 1.5, "type_add": 2,
 		"signed_latency": 2, "pong": 1.5, "receipt": 1.5, "action": 2, "asset_add": 2, "join": 2, "custom": 1.5},
@@ -54,13 +54,37 @@ type Gen struct {
 	Mods     string
 	Counts   map[string]int
 	// pools of ids that existed
-	deadSIDs   []string
-	deadEnts   map[string][]uint32 // by session uuid
-	counter    int
-	nextConn   int
+	deadSIDs []string
+	deadEnts map[string][]uint32 // by session uuid
+	counter  int
+	nextConn int
 	// Avoid lists known-finding triggers the generic histories must not hit
 	// (each has its own deterministic reproducer); keys are trigger names.
 	Avoid map[string]bool
+	// Groups > 0: connections are partitioned (conn id modulo Groups) and a
+	// connection only ever names sessions created by its own group
+	// (noninterference runs).
+	Groups   int
+	created  map[string][2]int
+	nCreated map[int]int
+}
+
+// NoteCreated records that a connection of group g created session sid.
+func (g *Gen) NoteCreated(sid string, group int) [2]int {
+	if g.created == nil {
+		g.created, g.nCreated = map[string][2]int{}, map[int]int{}
+	}
+	ref := [2]int{group, g.nCreated[group]}
+	g.nCreated[group]++
+	g.created[sid] = ref
+	return ref
+}
+
+func (g *Gen) Group(conn int) int {
+	if g.Groups <= 0 {
+		return 0
+	}
+	return conn % g.Groups
 }
 
 func NewGen(seed int64, m *model.Model, prof Profile, maxConns, maxSess int, mods string) *Gen {
@@ -73,6 +97,11 @@ type Action struct {
 	Kind string // "open", "close", or a request kind
 	Conn int
 	Req  *model.Req
+	Step int
+	// JoinRef names the target of a join symbolically: the idx-th session
+	// created by a connection of the given group (nil = literal session id).
+	JoinRef *[2]int
+	NoFlags bool // open: a flag-free connection (probes)
 }
 
 func (g *Gen) liveConns() []*model.Conn {
@@ -107,7 +136,7 @@ func (g *Gen) pick(ws map[string]float64) string {
 }
 
 func (g *Gen) NoteEntityGone(uuid string, e uint32) { g.deadEnts[uuid] = append(g.deadEnts[uuid], e) }
-func (g *Gen) NoteSessionGone(sid string)          { g.deadSIDs = append(g.deadSIDs, sid) }
+func (g *Gen) NoteSessionGone(sid string)           { g.deadSIDs = append(g.deadSIDs, sid) }
 
 // Next returns the next action.
 func (g *Gen) Next() Action {
@@ -151,6 +180,11 @@ func (g *Gen) Next() Action {
 		kind = "join"
 		g.Counts[kind]++
 	}
+	if c.Sess == nil && (kind == "pose" || kind == "comp_upd") && g.Avoid["deferred-update-crosses-session-boundary"] {
+		g.Counts[kind]--
+		kind = "join"
+		g.Counts[kind]++
+	}
 	if kind == "close" {
 		hows := []string{"fin", "rst", "halfclose"}
 		return Action{Kind: "close", Conn: c.ID, Req: &model.Req{Kind: "close", How: hows[g.R.Intn(len(hows))]}}
@@ -161,6 +195,10 @@ func (g *Gen) Next() Action {
 	switch kind {
 	case "join":
 		r.SID = g.pickSID(c)
+		if ref, ok := g.created[r.SID]; ok {
+			rr := ref
+			return Action{Kind: kind, Conn: c.ID, Req: r, JoinRef: &rr}
+		}
 	case "entity_add":
 		r.Persist = g.R.Intn(3) == 0
 		r.Flag = int32(g.R.Intn(2))
@@ -192,11 +230,26 @@ func (g *Gen) Next() Action {
 			for k := range s.Comps {
 				keys = append(keys, k)
 			}
-			sort.Slice(keys, func(i, j int) bool { return keys[i].Type < keys[j].Type || keys[i].Type == keys[j].Type && keys[i].Entity < keys[j].Entity })
+			sort.Slice(keys, func(i, j int) bool {
+				return keys[i].Type < keys[j].Type || keys[i].Type == keys[j].Type && keys[i].Entity < keys[j].Entity
+			})
 			if len(keys) > 0 && (kind != "comp_add" || g.R.Intn(4) == 0) {
 				k := keys[g.R.Intn(len(keys))]
 				r.TypeID, r.Entity = k.Type, k.Entity
 			}
+		}
+		if s != nil && kind == "comp_add" && g.R.Intn(10) < 6 && len(s.TypeNames) > 0 && len(s.Entities) > 0 {
+			// a registered type and an existing entity (of anyone)
+			var ts, es []uint32
+			for t := range s.TypeNames {
+				ts = append(ts, t)
+			}
+			for e := range s.Entities {
+				es = append(es, e)
+			}
+			sort.Slice(ts, func(i, j int) bool { return ts[i] < ts[j] })
+			sort.Slice(es, func(i, j int) bool { return es[i] < es[j] })
+			r.TypeID, r.Entity = ts[g.R.Intn(len(ts))], es[g.R.Intn(len(es))]
 		}
 		r.Data = []byte(fmt.Sprintf("c%d-%d", c.ID, g.counter))
 	case "pong":
@@ -266,6 +319,30 @@ func (g *Gen) liveSIDs() []string {
 
 func (g *Gen) pickSID(c *model.Conn) string {
 	live := g.liveSIDs()
+	if g.Groups > 0 {
+		var mine []string
+		for _, sid := range live {
+			if ref, ok := g.created[sid]; ok && ref[0] == g.Group(c.ID) {
+				mine = append(mine, sid)
+			}
+		}
+		canCreate := len(mine) < g.MaxSess || (c.Sess != nil && len(c.Sess.Members) == 1)
+		switch x := g.R.Intn(10); {
+		case x < 3 && canCreate:
+			return ""
+		case x < 8 && len(mine) > 0:
+			return mine[g.R.Intn(len(mine))]
+		case x < 9:
+			return []string{"nope", "x1", "labxffffffff"}[g.R.Intn(3)]
+		}
+		if len(mine) > 0 {
+			return mine[0]
+		}
+		if canCreate {
+			return ""
+		}
+		return "nope"
+	}
 	canCreate := len(live) < g.MaxSess || (c.Sess != nil && len(c.Sess.Members) == 1)
 	for try := 0; try < 10; try++ {
 		switch x := g.R.Intn(20); {
@@ -480,6 +557,9 @@ func (g *Gen) actionTS(s *model.Session, e uint32, name string) *timestamppb.Tim
 		}
 		return &timestamppb.Timestamp{Seconds: prev.Sec - 1, Nanos: 999_999_999}
 	case 2:
+		if prev.Nanos >= 999_999_998 {
+			return &timestamppb.Timestamp{Seconds: prev.Sec + 1}
+		}
 		return &timestamppb.Timestamp{Seconds: prev.Sec, Nanos: prev.Nanos + 1}
 	case 3:
 		return &timestamppb.Timestamp{Seconds: prev.Sec - 1000}
